@@ -497,7 +497,12 @@ class BackendZ3(Backend):
 
     @condom
     def StringV(self, ast):
-        return z3.StringVal(ast.args[0], ctx=self._context)
+        # build the literal from code points: z3.StringVal would re-interpret escape sequences such as \\u{48}
+        # that the caller wrote as plain characters
+        chars = [ord(c) for c in ast.args[0]]
+        return z3.SeqRef(
+            z3.Z3_mk_u32string(self._context.ref(), len(chars), (ctypes.c_uint * len(chars))(*chars)), self._context
+        )
 
     @condom
     def StringS(self, ast):
